@@ -39,176 +39,8 @@ func TestC09(t *testing.T) {
 		if gen.Uniform(0, 1).Draw(t, "family") == 0 && c09Split(t, r) {
 			return
 		}
-		nlibs := gen.Uniform(1, 4).Draw(t, "nlibs")
-		names := []string{"main.tsh"}
-		for i := 0; i < nlibs; i++ {
-			names = append(names, []string{"liba.tsh", "lib/b.tsh", "c.tsh", "lib/deep/d.tsh"}[i])
-		}
-		files := make([]c9File, nlibs+1)
-		for i := range files {
-			files[i].name = names[i]
-		}
-		// edges: file i imports a subset of libs with higher index; main imports at least one
-		diamond := false
-		repeated := false
-		importCount := map[int]int{}
-		for i := 0; i <= nlibs; i++ {
-			for j := i + 1; j <= nlibs; j++ {
-				p := 45
-				if i == 0 {
-					p = 70
-				}
-				if gen.Uniform(0, 99).Draw(t, "edge") < p {
-					files[i].imports = append(files[i].imports, j)
-					files[i].aliases = append(files[i].aliases, fmt.Sprintf("m%d", j))
-					importCount[j]++
-					if gen.Uniform(0, 9).Draw(t, "second-alias") == 0 {
-						files[i].imports = append(files[i].imports, j)
-						files[i].aliases = append(files[i].aliases, fmt.Sprintf("n%d", j))
-						repeated = true
-					}
-				}
-			}
-		}
-		if len(files[0].imports) == 0 {
-			files[0].imports, files[0].aliases = []int{1}, []string{"m1"}
-			importCount[1]++
-		}
-		for _, c := range importCount {
-			if c >= 2 {
-				diamond = true
-			}
-		}
-		prog := &ts.Program{Files: map[string]*ts.File{}, Main: "main.tsh"}
-		libsWithTopCalls := 0
-		usesOwnGlobal := false
-		leadingTop := false
-		hasGlobal := map[int]bool{}
-		wantDigit := map[int]bool{}
-		// build libs from the last to the first so that callee signatures are known
-		pubs := map[int][]string{}
-		for i := nlibs; i >= 0; i-- {
-			f := &ts.File{}
-			rel := func(j int) string {
-				p, _ := filepath.Rel(filepath.Dir(names[i]), names[j])
-				return p
-			}
-			for k, j := range files[i].imports {
-				f.Imports = append(f.Imports, ts.Import{Alias: files[i].aliases[k], Path: rel(j)})
-			}
-			useStd := gen.Uniform(0, 3).Draw(t, "use-std") == 0
-			if useStd {
-				f.Imports = append(f.Imports, ts.Import{Path: "strings"})
-			}
-			f.GroupImports = len(f.Imports) > 1 || gen.Uniform(0, 1).Draw(t, "group") == 1
-			tag := strings.TrimSuffix(filepath.Base(names[i]), ".tsh")
-			callImported := func(arg ts.Expr) ts.Expr {
-				if len(files[i].imports) == 0 {
-					return arg
-				}
-				k := gen.Uniform(0, len(files[i].imports)-1).Draw(t, "callee-file")
-				j := files[i].imports[k]
-				fn := pubs[j][gen.Uniform(0, len(pubs[j])-1).Draw(t, "callee-fn")]
-				return ts.Call{Alias: files[i].aliases[k], Name: fn, Args: []ts.Expr{arg}, Rets: []ts.Type{ts.TInt}}
-			}
-			x := ts.VarRef{Name: "x", Ty: ts.TInt}
-			if i > 0 {
-				// a library may start with executable top-level code before its first definition
-				if gen.Uniform(0, 2).Draw(t, "leading-top-level") == 0 {
-					f.Stmts = append(f.Stmts, ts.Print{Args: []ts.Expr{ts.StrLit{V: tag + "-start"}}})
-					leadingTop = true
-				}
-				// globals, used by top-level code only
-				ng := gen.Uniform(0, 2).Draw(t, "nglobals")
-				gnames := []string{"Count", "state"}[:ng]
-				for gi, g := range gnames {
-					f.Stmts = append(f.Stmts, ts.VarDecl{Names: []string{g}, Ty: ts.TInt, Tys: []ts.Type{ts.TInt}, Vals: []ts.Expr{intLit(10*i + gi)}, Form: ts.DeclShort})
-					hasGlobal[i] = true
-				}
-				npriv := gen.Uniform(0, 2).Draw(t, "nprivate")
-				privs := []string{"helper", "inner"}[:npriv]
-				for pi, p := range privs {
-					body := ts.Expr(ts.Bin{Op: "+", Ty: ts.TInt, L: ts.Bin{Op: "*", Ty: ts.TInt, L: x, R: intLit(i + 2)}, R: intLit(pi + 1)})
-					if pi == 1 {
-						body = ts.Bin{Op: "+", Ty: ts.TInt, L: ts.Call{Name: privs[0], Args: []ts.Expr{x}, Rets: []ts.Type{ts.TInt}}, R: intLit(100)}
-					}
-					f.Stmts = append(f.Stmts, ts.FuncDef{Name: p, Params: []ts.Param{{Name: "x", Ty: ts.TInt}}, Rets: []ts.Type{ts.TInt}, Body: []ts.Stmt{ts.Return{Vals: []ts.Expr{body}}}})
-				}
-				npub := gen.Uniform(1, 3).Draw(t, "npublic")
-				for pi, p := range []string{"Get", "Calc", "Value"}[:npub] {
-					var body ts.Expr = ts.Bin{Op: "+", Ty: ts.TInt, L: x, R: intLit(1000*i + pi)}
-					if npriv > 0 && gen.Uniform(0, 1).Draw(t, "use-private") == 1 {
-						body = ts.Bin{Op: "+", Ty: ts.TInt, L: ts.Call{Name: privs[gen.Uniform(0, npriv-1).Draw(t, "which-private")], Args: []ts.Expr{x}, Rets: []ts.Type{ts.TInt}}, R: body}
-					}
-					if gen.Uniform(0, 1).Draw(t, "use-imported") == 1 {
-						body = ts.Bin{Op: "+", Ty: ts.TInt, L: callImported(x), R: body}
-					}
-					fbody := []ts.Stmt{}
-					// functions of a library read and write the globals of their own file
-					if len(gnames) > 0 && gen.Uniform(0, 1).Draw(t, "use-own-global") == 1 {
-						g := gnames[gen.Uniform(0, len(gnames)-1).Draw(t, "which-global")]
-						if gen.Uniform(0, 1).Draw(t, "write-own-global") == 1 {
-							fbody = append(fbody, ts.OpAssign{Name: g, Ty: ts.TInt, Op: "+", Val: intLit(1)})
-						}
-						body = ts.Bin{Op: "+", Ty: ts.TInt, L: body, R: ts.VarRef{Name: g, Ty: ts.TInt}}
-						usesOwnGlobal = true
-					}
-					fbody = append(fbody, ts.Return{Vals: []ts.Expr{body}})
-					f.Stmts = append(f.Stmts, ts.FuncDef{Name: p, Params: []ts.Param{{Name: "x", Ty: ts.TInt}}, Rets: []ts.Type{ts.TInt}, Body: fbody})
-					pubs[i] = append(pubs[i], p)
-				}
-				// a function nobody calls (must be removable without harm)
-				if gen.Uniform(0, 1).Draw(t, "unused") == 1 {
-					f.Stmts = append(f.Stmts, ts.FuncDef{Name: "Unused", Params: []ts.Param{{Name: "x", Ty: ts.TInt}}, Rets: []ts.Type{ts.TInt}, Body: []ts.Stmt{ts.Return{Vals: []ts.Expr{callImported(x)}}}})
-				}
-				ntop := gen.Uniform(0, 3).Draw(t, "ntop")
-				topCall := false
-				for k := 0; k < ntop; k++ {
-					args := []ts.Expr{ts.StrLit{V: tag + "-top"}}
-					switch gen.Uniform(0, 2).Draw(t, "top-kind") {
-					case 0:
-						args = append(args, ts.Call{Name: pubs[i][0], Args: []ts.Expr{intLit(k)}, Rets: []ts.Type{ts.TInt}})
-						topCall = true
-					case 1:
-						if npriv > 0 {
-							args = append(args, ts.Call{Name: privs[npriv-1], Args: []ts.Expr{intLit(k)}, Rets: []ts.Type{ts.TInt}})
-							topCall = true
-						}
-					default:
-						if len(gnames) > 0 {
-							f.Stmts = append(f.Stmts, ts.OpAssign{Name: gnames[0], Ty: ts.TInt, Op: "+", Val: intLit(1)})
-						}
-					}
-					// globals are printed after the call results: a read before a call that writes the variable is unspecified in Go
-					for _, g := range gnames {
-						args = append(args, ts.VarRef{Name: g, Ty: ts.TInt})
-					}
-					f.Stmts = append(f.Stmts, ts.Print{Args: args})
-				}
-				if topCall {
-					libsWithTopCalls++
-				}
-			} else {
-				// main: own function with the same name as library functions, calls through every alias
-				f.Stmts = append(f.Stmts, ts.FuncDef{Name: "Get", Params: []ts.Param{{Name: "x", Ty: ts.TInt}}, Rets: []ts.Type{ts.TInt}, Body: []ts.Stmt{ts.Return{Vals: []ts.Expr{ts.Bin{Op: "-", Ty: ts.TInt, L: x, R: intLit(1)}}}}})
-				f.Stmts = append(f.Stmts, ts.VarDecl{Names: []string{"Count"}, Ty: ts.TInt, Tys: []ts.Type{ts.TInt}, Vals: []ts.Expr{intLit(7)}, Form: ts.DeclShort})
-				for k, j := range files[0].imports {
-					for _, fn := range pubs[j] {
-						if gen.Uniform(0, 2).Draw(t, "main-call") > 0 {
-							f.Stmts = append(f.Stmts, ts.Print{Args: []ts.Expr{ts.StrLit{V: files[0].aliases[k] + "." + fn}, ts.Call{Alias: files[0].aliases[k], Name: fn, Args: []ts.Expr{intLit(k + 2)}, Rets: []ts.Type{ts.TInt}}}})
-						}
-					}
-				}
-				f.Stmts = append(f.Stmts, ts.Print{Args: []ts.Expr{ts.StrLit{V: "main"}, ts.Call{Name: "Get", Args: []ts.Expr{ts.VarRef{Name: "Count", Ty: ts.TInt}}, Rets: []ts.Type{ts.TInt}}}})
-			}
-			if useStd {
-				// strings.Repeat is interpreted natively by the reference model: print a constant computed here instead
-				f.Stmts = append(f.Stmts, ts.Print{Args: []ts.Expr{ts.StrLit{V: tag + "-std"}, ts.Call{Alias: "strings", Name: "Repeat", Args: []ts.Expr{ts.StrLit{V: "ab"}, intLit(2)}, Rets: []ts.Type{ts.TString}}}})
-			}
-			// nonce steering of the hash prefix
-			wantDigit[i] = gen.Uniform(0, 1).Draw(t, "want-digit") == 1
-			prog.Files[names[i]] = f
-		}
+		g := c09BuildGraph(t)
+		prog, names, nlibs, diamond, repeated, libsWithTopCalls, usesOwnGlobal, leadingTop, hasGlobal, wantDigit := g.prog, g.names, g.nlibs, g.diamond, g.repeated, g.libsWithTopCalls, g.usesOwnGlobal, g.leadingTop, g.hasGlobal, g.wantDigit
 		// print sources with the steering nonce as first line
 		srcs := map[string]string{}
 		digitWithGlobal := false
@@ -371,4 +203,192 @@ func TestC09(t *testing.T) {
 		}
 	}
 	_ = run.Bash
+}
+
+// c09Graph is a generated program over 2-5 files with a random acyclic import graph (see the rule text of C09).
+type c09Graph struct {
+	prog             *ts.Program
+	names            []string
+	nlibs            int
+	diamond          bool
+	repeated         bool
+	libsWithTopCalls int
+	usesOwnGlobal    bool
+	leadingTop       bool
+	hasGlobal        map[int]bool
+	wantDigit        map[int]bool
+}
+
+func c09BuildGraph(t *rapid.T) c09Graph {
+	nlibs := gen.Uniform(1, 4).Draw(t, "nlibs")
+	names := []string{"main.tsh"}
+	for i := 0; i < nlibs; i++ {
+		names = append(names, []string{"liba.tsh", "lib/b.tsh", "c.tsh", "lib/deep/d.tsh"}[i])
+	}
+	files := make([]c9File, nlibs+1)
+	for i := range files {
+		files[i].name = names[i]
+	}
+	// edges: file i imports a subset of libs with higher index; main imports at least one
+	diamond := false
+	repeated := false
+	importCount := map[int]int{}
+	for i := 0; i <= nlibs; i++ {
+		for j := i + 1; j <= nlibs; j++ {
+			p := 45
+			if i == 0 {
+				p = 70
+			}
+			if gen.Uniform(0, 99).Draw(t, "edge") < p {
+				files[i].imports = append(files[i].imports, j)
+				files[i].aliases = append(files[i].aliases, fmt.Sprintf("m%d", j))
+				importCount[j]++
+				if gen.Uniform(0, 9).Draw(t, "second-alias") == 0 {
+					files[i].imports = append(files[i].imports, j)
+					files[i].aliases = append(files[i].aliases, fmt.Sprintf("n%d", j))
+					repeated = true
+				}
+			}
+		}
+	}
+	if len(files[0].imports) == 0 {
+		files[0].imports, files[0].aliases = []int{1}, []string{"m1"}
+		importCount[1]++
+	}
+	for _, c := range importCount {
+		if c >= 2 {
+			diamond = true
+		}
+	}
+	prog := &ts.Program{Files: map[string]*ts.File{}, Main: "main.tsh"}
+	libsWithTopCalls := 0
+	usesOwnGlobal := false
+	leadingTop := false
+	hasGlobal := map[int]bool{}
+	wantDigit := map[int]bool{}
+	// build libs from the last to the first so that callee signatures are known
+	pubs := map[int][]string{}
+	for i := nlibs; i >= 0; i-- {
+		f := &ts.File{}
+		rel := func(j int) string {
+			p, _ := filepath.Rel(filepath.Dir(names[i]), names[j])
+			return p
+		}
+		for k, j := range files[i].imports {
+			f.Imports = append(f.Imports, ts.Import{Alias: files[i].aliases[k], Path: rel(j)})
+		}
+		useStd := gen.Uniform(0, 3).Draw(t, "use-std") == 0
+		if useStd {
+			f.Imports = append(f.Imports, ts.Import{Path: "strings"})
+		}
+		f.GroupImports = len(f.Imports) > 1 || gen.Uniform(0, 1).Draw(t, "group") == 1
+		tag := strings.TrimSuffix(filepath.Base(names[i]), ".tsh")
+		callImported := func(arg ts.Expr) ts.Expr {
+			if len(files[i].imports) == 0 {
+				return arg
+			}
+			k := gen.Uniform(0, len(files[i].imports)-1).Draw(t, "callee-file")
+			j := files[i].imports[k]
+			fn := pubs[j][gen.Uniform(0, len(pubs[j])-1).Draw(t, "callee-fn")]
+			return ts.Call{Alias: files[i].aliases[k], Name: fn, Args: []ts.Expr{arg}, Rets: []ts.Type{ts.TInt}}
+		}
+		x := ts.VarRef{Name: "x", Ty: ts.TInt}
+		if i > 0 {
+			// a library may start with executable top-level code before its first definition
+			if gen.Uniform(0, 2).Draw(t, "leading-top-level") == 0 {
+				f.Stmts = append(f.Stmts, ts.Print{Args: []ts.Expr{ts.StrLit{V: tag + "-start"}}})
+				leadingTop = true
+			}
+			// globals, used by top-level code only
+			ng := gen.Uniform(0, 2).Draw(t, "nglobals")
+			gnames := []string{"Count", "state"}[:ng]
+			for gi, g := range gnames {
+				f.Stmts = append(f.Stmts, ts.VarDecl{Names: []string{g}, Ty: ts.TInt, Tys: []ts.Type{ts.TInt}, Vals: []ts.Expr{intLit(10*i + gi)}, Form: ts.DeclShort})
+				hasGlobal[i] = true
+			}
+			npriv := gen.Uniform(0, 2).Draw(t, "nprivate")
+			privs := []string{"helper", "inner"}[:npriv]
+			for pi, p := range privs {
+				body := ts.Expr(ts.Bin{Op: "+", Ty: ts.TInt, L: ts.Bin{Op: "*", Ty: ts.TInt, L: x, R: intLit(i + 2)}, R: intLit(pi + 1)})
+				if pi == 1 {
+					body = ts.Bin{Op: "+", Ty: ts.TInt, L: ts.Call{Name: privs[0], Args: []ts.Expr{x}, Rets: []ts.Type{ts.TInt}}, R: intLit(100)}
+				}
+				f.Stmts = append(f.Stmts, ts.FuncDef{Name: p, Params: []ts.Param{{Name: "x", Ty: ts.TInt}}, Rets: []ts.Type{ts.TInt}, Body: []ts.Stmt{ts.Return{Vals: []ts.Expr{body}}}})
+			}
+			npub := gen.Uniform(1, 3).Draw(t, "npublic")
+			for pi, p := range []string{"Get", "Calc", "Value"}[:npub] {
+				var body ts.Expr = ts.Bin{Op: "+", Ty: ts.TInt, L: x, R: intLit(1000*i + pi)}
+				if npriv > 0 && gen.Uniform(0, 1).Draw(t, "use-private") == 1 {
+					body = ts.Bin{Op: "+", Ty: ts.TInt, L: ts.Call{Name: privs[gen.Uniform(0, npriv-1).Draw(t, "which-private")], Args: []ts.Expr{x}, Rets: []ts.Type{ts.TInt}}, R: body}
+				}
+				if gen.Uniform(0, 1).Draw(t, "use-imported") == 1 {
+					body = ts.Bin{Op: "+", Ty: ts.TInt, L: callImported(x), R: body}
+				}
+				fbody := []ts.Stmt{}
+				// functions of a library read and write the globals of their own file
+				if len(gnames) > 0 && gen.Uniform(0, 1).Draw(t, "use-own-global") == 1 {
+					g := gnames[gen.Uniform(0, len(gnames)-1).Draw(t, "which-global")]
+					if gen.Uniform(0, 1).Draw(t, "write-own-global") == 1 {
+						fbody = append(fbody, ts.OpAssign{Name: g, Ty: ts.TInt, Op: "+", Val: intLit(1)})
+					}
+					body = ts.Bin{Op: "+", Ty: ts.TInt, L: body, R: ts.VarRef{Name: g, Ty: ts.TInt}}
+					usesOwnGlobal = true
+				}
+				fbody = append(fbody, ts.Return{Vals: []ts.Expr{body}})
+				f.Stmts = append(f.Stmts, ts.FuncDef{Name: p, Params: []ts.Param{{Name: "x", Ty: ts.TInt}}, Rets: []ts.Type{ts.TInt}, Body: fbody})
+				pubs[i] = append(pubs[i], p)
+			}
+			// a function nobody calls (must be removable without harm)
+			if gen.Uniform(0, 1).Draw(t, "unused") == 1 {
+				f.Stmts = append(f.Stmts, ts.FuncDef{Name: "Unused", Params: []ts.Param{{Name: "x", Ty: ts.TInt}}, Rets: []ts.Type{ts.TInt}, Body: []ts.Stmt{ts.Return{Vals: []ts.Expr{callImported(x)}}}})
+			}
+			ntop := gen.Uniform(0, 3).Draw(t, "ntop")
+			topCall := false
+			for k := 0; k < ntop; k++ {
+				args := []ts.Expr{ts.StrLit{V: tag + "-top"}}
+				switch gen.Uniform(0, 2).Draw(t, "top-kind") {
+				case 0:
+					args = append(args, ts.Call{Name: pubs[i][0], Args: []ts.Expr{intLit(k)}, Rets: []ts.Type{ts.TInt}})
+					topCall = true
+				case 1:
+					if npriv > 0 {
+						args = append(args, ts.Call{Name: privs[npriv-1], Args: []ts.Expr{intLit(k)}, Rets: []ts.Type{ts.TInt}})
+						topCall = true
+					}
+				default:
+					if len(gnames) > 0 {
+						f.Stmts = append(f.Stmts, ts.OpAssign{Name: gnames[0], Ty: ts.TInt, Op: "+", Val: intLit(1)})
+					}
+				}
+				// globals are printed after the call results: a read before a call that writes the variable is unspecified in Go
+				for _, g := range gnames {
+					args = append(args, ts.VarRef{Name: g, Ty: ts.TInt})
+				}
+				f.Stmts = append(f.Stmts, ts.Print{Args: args})
+			}
+			if topCall {
+				libsWithTopCalls++
+			}
+		} else {
+			// main: own function with the same name as library functions, calls through every alias
+			f.Stmts = append(f.Stmts, ts.FuncDef{Name: "Get", Params: []ts.Param{{Name: "x", Ty: ts.TInt}}, Rets: []ts.Type{ts.TInt}, Body: []ts.Stmt{ts.Return{Vals: []ts.Expr{ts.Bin{Op: "-", Ty: ts.TInt, L: x, R: intLit(1)}}}}})
+			f.Stmts = append(f.Stmts, ts.VarDecl{Names: []string{"Count"}, Ty: ts.TInt, Tys: []ts.Type{ts.TInt}, Vals: []ts.Expr{intLit(7)}, Form: ts.DeclShort})
+			for k, j := range files[0].imports {
+				for _, fn := range pubs[j] {
+					if gen.Uniform(0, 2).Draw(t, "main-call") > 0 {
+						f.Stmts = append(f.Stmts, ts.Print{Args: []ts.Expr{ts.StrLit{V: files[0].aliases[k] + "." + fn}, ts.Call{Alias: files[0].aliases[k], Name: fn, Args: []ts.Expr{intLit(k + 2)}, Rets: []ts.Type{ts.TInt}}}})
+					}
+				}
+			}
+			f.Stmts = append(f.Stmts, ts.Print{Args: []ts.Expr{ts.StrLit{V: "main"}, ts.Call{Name: "Get", Args: []ts.Expr{ts.VarRef{Name: "Count", Ty: ts.TInt}}, Rets: []ts.Type{ts.TInt}}}})
+		}
+		if useStd {
+			// strings.Repeat is interpreted natively by the reference model: print a constant computed here instead
+			f.Stmts = append(f.Stmts, ts.Print{Args: []ts.Expr{ts.StrLit{V: tag + "-std"}, ts.Call{Alias: "strings", Name: "Repeat", Args: []ts.Expr{ts.StrLit{V: "ab"}, intLit(2)}, Rets: []ts.Type{ts.TString}}}})
+		}
+		// nonce steering of the hash prefix
+		wantDigit[i] = gen.Uniform(0, 1).Draw(t, "want-digit") == 1
+		prog.Files[names[i]] = f
+	}
+	return c09Graph{prog: prog, names: names, nlibs: nlibs, diamond: diamond, repeated: repeated, libsWithTopCalls: libsWithTopCalls, usesOwnGlobal: usesOwnGlobal, leadingTop: leadingTop, hasGlobal: hasGlobal, wantDigit: wantDigit}
 }
